@@ -112,7 +112,7 @@ _RP_TRUSTED = ["modelled, not verified: net/http request plumbing (httptest-free
 
 PROPS["C12"] = dict(
     claim=dict(
-        text="Machine-checked proof (Coq 8.16): for every registration program (arbitrarily nested Group calls, Router.Use at any point, routes with variadic and later middleware, NotFound/NotAllowed) the imperative save/extend/run/restore of router.go registers exactly the lexically scoped routes (C12_scoping, C12_program: path = normalised concatenation of enclosing prefixes, middleware = enclosing group middleware in effect at registration, outermost first), Group restores prefix and group middleware (C12_restore), Use inside a group is local to later routes of that group (C12_use_local) and siblings are unaffected (C12_sibling_unaffected). Proof by a nested induction principle over programs. Tie to the code: generated programs are executed against a real Router; Route.Path(), len(Route.Handlers()), the router's scope state after the program (verif accessor) and the handler trace of a request to every route are compared with the extracted model and with the denotation.",
+        text="Machine-checked proof (Coq 8.16): for every registration program (arbitrarily nested Group calls, Router.Use at any point, routes with variadic and later middleware, NotFound/NotAllowed) the imperative save/extend/run/restore of router.go registers exactly the lexically scoped routes (C12_scoping, C12_program: path = normalised concatenation of enclosing prefixes, middleware = enclosing group middleware in effect at registration, outermost first), Group restores prefix and group middleware (C12_restore), Use inside a group is local to later routes of that group (C12_use_local) and siblings are unaffected (C12_sibling_unaffected). Proof by a nested induction principle over programs. Tie to the code: generated programs are executed against a real Router; Route.Path(), len(Route.Handlers()), the router's scope state after the program (verif accessor) and the handler trace of a request to every route are compared with the extracted model and with the denotation. Added later: (a) the route table built from a program (Sys.sys_build) holds, route id by route id, exactly the lexically scoped routes, and the global middleware are the top-level Use statements (C12_router_routes, C12_router_globals); (b) the same registration on a SLICE HEAP (in-place append into spare capacity, Group saving/restoring slice headers, combineHandlers copying, caller slices with spare capacity, any growth policy) computes exactly the list-level result and panics exactly when it does (C12_heap_refines, C12_heap_routes, by an ownership / prefix-view invariant), while the no-copy combineHandlers is refuted on that model (C12_legacy_aliasing_refuted).",
         note="Trusted: Coq kernel, extraction, driver, harness. Slices are modelled as immutable lists (combineHandlers copies at registration; aliasing of the group slice is exercised by the tie: handler traces of every route are compared after the whole program ran). Controller/Resource registrations are Group calls (Resource is C16).",
         technique="Coq proof: imperative registration = lexical denotation, by nested structural induction over all programs; extracted model vs implementation differential check"),
     n=dict(quick=3000, thorough=40000),
@@ -194,7 +194,7 @@ _RT_TRUSTED = ["modelled, not verified: Go's regexp engine (leftmost-first backt
 
 PROPS["C01"] = dict(
     claim=dict(
-        text="Machine-checked proof (Coq 8.16): for every table of grammar-level routes (static paths and patterns with literals, {name}, {name:regex}, global variables, nested optional tails; any method sets), every '/'-free method and every normalised path, the router's three-tier lookup (static map keyed method+path, first-node index with literal-prefix filter, residual list; routes stored by id in Go-map-like association lists) selects exactly what the documented rule prescribes - exact static path first, then the earliest registered matching pattern with a complete literal first segment, then the earliest other matching pattern (C01_selection); the selected route allows the method and its pattern matches the whole path in the declarative semantics, and 'no route' is reported only if no registered route does (C01_sound, C01_complete, via soundness+completeness of the backtracking matcher for the declarative regex semantics); the same holds with the cache on (C01_cached). Tie to the code: generated overlapping tables x probes (instantiations, single-edit mutations, hostile strings); the implementation's selection is compared with the extracted string-level model (pattern compiler + regex parser + tables) and judged by spec_select on the grammar-level AST; on every generated pattern an executable link check compares the string-level compiler with the grammar-level one (start, first node, variable names).",
+        text="Machine-checked proof (Coq 8.16): for every table of grammar-level routes (static paths and patterns with literals, {name}, {name:regex}, global variables, nested optional tails; any method sets), every '/'-free method and every normalised path, the router's three-tier lookup (static map keyed method+path, first-node index with literal-prefix filter, residual list; routes stored by id in Go-map-like association lists) selects exactly what the documented rule prescribes - exact static path first, then the earliest registered matching pattern with a complete literal first segment, then the earliest other matching pattern (C01_selection); the selected route allows the method and its pattern matches the whole path in the declarative semantics, and 'no route' is reported only if no registered route does (C01_sound, C01_complete, via soundness+completeness of the backtracking matcher for the declarative regex semantics); the same holds with the cache on (C01_cached). Tie to the code: generated overlapping tables x probes (instantiations, single-edit mutations, hostile strings); the implementation's selection is compared with the extracted string-level model (pattern compiler + regex parser + tables) and judged by spec_select on the grammar-level AST; on every generated pattern an executable link check compares the string-level compiler with the grammar-level one (start, first node, variable names). Added later: the string-level router (what AddRoute does with the pattern TEXT: compile_dyn + regex parser - the model that is executed against rux) is proved to register every table of static routes and printable patterns and to answer every lookup (route id and parameters, any options, cache included) exactly like the grammar-level router, hence to select exactly spec_select (C01_text_link, C01_string_level_registers, C01_string_level_lookup, C01_string_level_selection; RoundTrip.v, TableLink.v).",
         note="Trusted: Coq kernel, extraction, driver, harness. The theorem is about routers built from the grammar-level AST (PatTable.build); the string-level front end (strings.Replacer-style text assembly + regexp.MustCompile) is tied to it by the executable link check and by the probes, not by proof (the parse/print round trip was not attempted). Go's regexp engine is modelled (leftmost-first backtracking) on the parser subset.",
         technique="Coq proof: three-tier lookup = priority rule over a declarative pattern semantics (tier characterisation + prefix/first-node soundness + matcher soundness/completeness); extracted model vs implementation differential check"),
     n=dict(quick=3000, thorough=40000),
@@ -223,7 +223,7 @@ PROPS["C02"] = dict(
 )
 PROPS["C06"] = dict(
     claim=dict(
-        text="Machine-checked proof (Coq 8.16): for every grammar-level table, every combination of StrictLastSlash / HandleMethodNotAllowed / HandleFallbackRoute, every '/'-free method and every path, QuickMatch equals the documented decision list: direct match; else for HEAD the GET match; else the '/*' route registered for the method when fallback handling is on; else not-allowed with the allowed set equal to exactly the other methods that match, when 405 handling is on and that set is non-empty; else not found (C06_order, on top of C01_selection); caching does not change the resolution (C06_cached); with InterceptAll(q) every request resolves exactly as a request for q on the same router without the option (C06_intercept, C06_intercept_as_request); the intercept path is normalised like a request path (F14 refuted witness for the old code); the default handlers are 405 + sorted Allow (200 for OPTIONS) and 404 (C06_default_*). Tie to the code: tables x random option combinations (incl. caching, InterceptAll in several spellings, '/*' routes per method) x custom/default fallback handlers x probes with HEAD, OPTIONS, unknown methods through Router.Match and ServeHTTP; resolution, status, Allow header and who ran are compared with the extracted model and judged by the ladder computed from the grammar-level table.",
+        text="Machine-checked proof (Coq 8.16): for every grammar-level table, every combination of StrictLastSlash / HandleMethodNotAllowed / HandleFallbackRoute, every '/'-free method and every path, QuickMatch equals the documented decision list: direct match; else for HEAD the GET match; else the '/*' route registered for the method when fallback handling is on; else not-allowed with the allowed set equal to exactly the other methods that match, when 405 handling is on and that set is non-empty; else not found (C06_order, on top of C01_selection); caching does not change the resolution (C06_cached); with InterceptAll(q) every request resolves exactly as a request for q on the same router without the option (C06_intercept, C06_intercept_as_request); the intercept path is normalised like a request path (F14 refuted witness for the old code); the default handlers are 405 + sorted Allow (200 for OPTIONS) and 404 (C06_default_*). Tie to the code: tables x random option combinations (incl. caching, InterceptAll in several spellings, '/*' routes per method) x custom/default fallback handlers x probes with HEAD, OPTIONS, unknown methods through Router.Match and ServeHTTP; resolution, status, Allow header and who ran are compared with the extracted model and judged by the ladder computed from the grammar-level table. Added later: C06_string_level_order - the same ladder for the string-level router built from pattern texts, on printable tables (TableLink.v).",
         note="Trusted: Coq kernel, extraction, driver, harness; as C01 for the string-level front end. C06_order is stated for routers without caching and InterceptAll; caching is covered by C06_cached/C07, InterceptAll by C06_intercept plus the correspondence.",
         technique="Coq proof: QuickMatch = decision list over spec_select; extracted model vs implementation differential check"),
     n=dict(quick=3000, thorough=40000),
@@ -281,7 +281,7 @@ PROPS["C20"] = dict(
 
 PROPS["C16"] = dict(
     claim=dict(
-        text="Machine-checked proof (Coq 8.16): for every subset of the seven actions visited in any order, every per-action middleware map, base path and mode, Resource (a Group around one AddNamed + Route.Use per implemented action) registers exactly one route per implemented action with the documented methods and name and only that action's middleware, under prefix ++ action path, and nothing else (C16_table, through the lexical-scoping theorem of C12); a different visiting order only permutes the table (C16_order_independent); for every clean prefix the paths are the documented /res, /res/create, /res/{id}, /res/{id}/edit (C16_documented_paths); registration succeeds (C16_accepted); non-pointer / non-struct controllers are rejected (C16_guard). That GET /res/create is served by create and never by show is C01's static-before-dynamic rule, and the lookup tie below checks it. Tie to the code: 256 code-generated controller types (one per subset, with and without Uses(); plus controllers with action-named methods of the wrong signature, nesting in groups with middleware) are registered through the real Resource in Go's random map order; Routes()/NamedRoutes() and the handler, per-action middleware and Allow header of method x path probes are compared with the extracted model (fixed order) and the documented table.",
+        text="Machine-checked proof (Coq 8.16): for every subset of the seven actions visited in any order, every per-action middleware map, base path and mode, Resource (a Group around one AddNamed + Route.Use per implemented action) registers exactly one route per implemented action with the documented methods and name and only that action's middleware, under prefix ++ action path, and nothing else (C16_table, through the lexical-scoping theorem of C12); a different visiting order only permutes the table (C16_order_independent); for every clean prefix the paths are the documented /res, /res/create, /res/{id}, /res/{id}/edit (C16_documented_paths); registration succeeds (C16_accepted); non-pointer / non-struct controllers are rejected (C16_guard). That GET /res/create is served by create and never by show is C01's static-before-dynamic rule, and the lookup tie below checks it. Tie to the code: 256 code-generated controller types (one per subset, with and without Uses(); plus controllers with action-named methods of the wrong signature, nesting in groups with middleware) are registered through the real Resource in Go's random map order; Routes()/NamedRoutes() and the handler, per-action middleware and Allow header of method x path probes are compared with the extracted model (fixed order) and the documented table. Added later (RestLookup.v): on the string-level router built from the texts Resource registers, for any printable prefix, a request is served by action a exactly when a is implemented, allows the method and the path has a's documented shape, except that GET G/create is served by Create and never by Show (C16_lookup_table, C16_create_never_show), and the serving action does not depend on the order in which Go's map iteration registered the table (C16_lookup_order_independent, C16_lookup_order_independent_resource).",
         note="reflect (MethodByName, type name, Kind) is modelled as inputs. Lookup results for the table are decided by the router model of C01/C06 (extracted and compared on probes), not re-proved here. Trusted: Coq kernel, extraction, driver, harness.",
         technique="Coq proof: Resource's registrations = documented table for every subset and order (via lexical scoping); extracted model vs implementation differential check over all 128 subsets"),
     n=dict(quick=1000, thorough=3000),
@@ -299,7 +299,7 @@ PROPS["C16"] = dict(
 
 PROPS["C15"] = dict(
     claim=dict(
-        text="Machine-checked proof (Coq 8.16): for every grammar-level pattern without optional parts and every assignment of values that satisfy its variables' regexes, the substituted path matches the pattern with a decomposition having exactly those values (C15_matches); requesting it dispatches to a route - this one, or one C01's rule ranks higher that then also matches (C15_dispatch, from C01's completeness); the reported parameters are a valid decomposition (C15_params) and are exactly the substituted values when every variable is slash-free and delimited by the end or a literal beginning with '/' (C15_values_back, C15_decomposition_unique); GetRoute returns the most recent registration under a name and other names are untouched (C15_get_route, C15_other_names_kept). K3 (trailing white space trimmed by lookup normalisation) and K4 (a value containing another placeholder's text is replaced again) are refuted witnesses and known findings. Tie to the code: named routes x admissible and special values (spaces, non-ASCII, %, %XX, ?, #, &, ;, .., braces) x the three argument styles; the URL built by BuildURL/ToURL is compared with the extracted string-level model of Build, its Path is fed to Router.Match and its String() through http.NewRequest into ServeHTTP; the judge checks substitution, query arguments and route/values on the grammar-level AST; naming-operation sequences are checked against GetRoute.",
+        text="Machine-checked proof (Coq 8.16): for every grammar-level pattern without optional parts and every assignment of values that satisfy its variables' regexes, the substituted path matches the pattern with a decomposition having exactly those values (C15_matches); requesting it dispatches to a route - this one, or one C01's rule ranks higher that then also matches (C15_dispatch, from C01's completeness); the reported parameters are a valid decomposition (C15_params) and are exactly the substituted values when every variable is slash-free and delimited by the end or a literal beginning with '/' (C15_values_back, C15_decomposition_unique); GetRoute returns the most recent registration under a name and other names are untouched (C15_get_route, C15_other_names_kept). K3 (trailing white space trimmed by lookup normalisation) and K4 (a value containing another placeholder's text is replaced again) are refuted witnesses and known findings. Tie to the code: named routes x admissible and special values (spaces, non-ASCII, %, %XX, ?, #, &, ;, .., braces) x the three argument styles; the URL built by BuildURL/ToURL is compared with the extracted string-level model of Build, its Path is fed to Router.Match and its String() through http.NewRequest into ServeHTTP; the judge checks substitution, query arguments and route/values on the grammar-level AST; naming-operation sequences are checked against GetRoute. Added later: the string-level Build (after repair F19 one left-to-right pass of a multi-pair replacer) is proved equal to the substitution of the caller's values on every printable pattern without optional parts, for ARBITRARY values - braces and other placeholders' texts included (C15_build_is_subst, C15_built_url_matches; BuildLink.v); Route.NamedTo on any route makes the name yield that route and leaves every other name alone (C15_named_to, C15_named_to_keeps).",
         note="Side condition (stated in the theorems): the substituted path is already normalised (K3). net/url escaping/parsing is not modelled (validated by the tie: ServeHTTP on the parsed URL vs Match on u.Path). The string-level Build (one-pass multi-replacement of the placeholder texts, after repair F19) is tied to the grammar-level substitution by the correspondence, not by proof. Trusted: Coq kernel, extraction, driver, harness.",
         technique="Coq proof: substitution of admissible values lies in the pattern's language; uniqueness of decomposition for segment-shaped patterns; differential check with round trip through the router"),
     n=dict(quick=5000, thorough=40000),
